@@ -1,5 +1,5 @@
 """Property id -> check function."""
-from . import props_filter, props_glr, props_lex, props_lr, props_prec, props_tbl
+from . import props_act, props_filter, props_glr, props_lex, props_lr, props_prec, props_tbl
 
 CHECKS = {
     "C01": props_glr.c01,
@@ -12,5 +12,6 @@ CHECKS = {
     "C08": props_lr.c08,
     "C10": props_lr.c10,
     "C17": props_glr.c17,
+    "C09": props_act.c09,
     "C18": props_filter.c18,
 }
